@@ -32,6 +32,9 @@ type Result struct {
 	Witness     any              `json:"witness,omitempty"`
 	// Extra violations found in the same case (each with its own signature)
 	More []Finding `json:"more,omitempty"`
+	// RestartChild asks the child process to exit after this case (e.g. a runaway goroutine of the
+	// system under test could not be stopped); the driver restarts a fresh child for the next case.
+	RestartChild bool `json:"restart_child,omitempty"`
 }
 
 type Finding struct {
@@ -112,6 +115,13 @@ func (r *R) Violations() int {
 	r.mu.Lock()
 	defer r.mu.Unlock()
 	return len(r.findings)
+}
+
+// RestartChild marks the process as tainted (see Result.RestartChild).
+func (r *R) RestartChild() {
+	r.mu.Lock()
+	r.res.RestartChild = true
+	r.mu.Unlock()
 }
 
 func (r *R) Inconclusive(reason string) {
